@@ -1726,7 +1726,7 @@ fn overlap_exhaustive(ctx: &mut Ctx, name: &str, len: usize, subset: bool, share
 }
 
 fn random(ctx: &mut Ctx) {
-    let total = ctx.by_tier(800, 6_000);
+    let total = ctx.by_tier(1_200, 6_000);
     let schedules = ctx.by_tier(7usize, 170usize); // per operator: 3 x 7 = 21 / 3 x 170 = 510 schedules per input
     ctx.phase("random", total);
     while let Some(k) = ctx.next_case() {
@@ -1756,12 +1756,13 @@ fn run(ctx: &mut Ctx) {
 fn main() {
     let mut spec = Spec::new("C10", "exploration", RULE);
     spec.assumptions = &[
-        "the property is relative to the contents reported by a probe WindowRunner with identical width / slide / report strategy fed the same lexical items (window correctness itself is C09); the flush() of stop() counts as one more firing",
-        "window queries are SELECT * over a BGP of 1-3 triple patterns without repeated variables inside one pattern (WINDOW blocks accept triple patterns only); terms are IRIs plus a few plain literals in object position",
-        "rules are positive N3 rules with 1-2 premises and 1-2 conclusions, loaded through RSPBuilder::add_rules WITHOUT the terminating dot between rules (SimpleR2R::load_rules stops at the first text it cannot parse and a lone '.' is such a text)",
+        "the property is relative to the contents reported by a probe WindowRunner with identical width / slide / report strategy fed the same lexical items (window correctness itself is C09); the flush() of stop() counts as one more firing; items sent to another stream through add_to_stream are not given to the probe",
+        "window queries are SELECT * over a BGP of 1-3 triple patterns without repeated variables inside one pattern (WINDOW blocks accept triple patterns only; the SELECT list is not applied to single-window results); terms are IRIs plus a few plain literals in object position, compared by their bare lexical form (the engine reports literals without quotes)",
+        "rules are positive rules with 1-2 premises and 1-2 conclusions, loaded through RSPBuilder::add_rules as N3 WITHOUT the terminating dot between rules (SimpleR2R::load_rules stops at the first text it cannot parse and a lone '.' is such a text) or, for single-conclusion rules, through add_sparql_rules",
         "report strategies ON_WINDOW_CLOSE (explicit and default) and NON_EMPTY_CONTENT; ON_CONTENT_CHANGE / PERIODIC are not driven (their reports depend on HashMap iteration order resp. on absolute time)",
         "firings are cut out of the event log by the feeding call (single-thread) resp. by the worker.before_process / worker.after_process hook events (multi-thread); rows inside a firing are compared as a bag",
-        "quiescence of a multi-thread run = the worker thread has dropped its clone of the consumer closure (it left its loop after draining the channel); 60 s watchdog = inconclusive",
+        "quiescence of a multi-thread run = the worker thread has dropped its clone of the consumer closure (it left its loop after draining the channel; flush() has no s2r.content_sent yield point, so sent/processed counters alone cannot see the last content); 60 s watchdog = inconclusive; schedule gates that are not released within 3 s are abandoned and counted, they never decide anything",
+        "the relation-to-stream stage is judged against the relations observed in the RSTREAM run of the same input (the engine is deterministic in single-thread mode), so that a window-dataset defect and a stream-operator defect get separate signatures",
     ];
     spec.quick_budget_s = 32;
     spec.thorough_budget_s = 560;
